@@ -26,7 +26,9 @@ fn got_levels(f: TopicFilter) -> Vec<Kind> {
 }
 
 fn main() {
-    let alphabet = ['a', '$', '/', '+', '#'];
+    std::panic::set_hook(Box::new(|_| {}));
+    // 'é' is two bytes long: byte offsets and character counts differ from the first occurrence on
+    let alphabet = ['a', '$', '/', '+', '#', 'é'];
     let max_len: usize = std::env::args().nth(1).and_then(|a| a.parse().ok()).unwrap_or(7);
     let mut cases: u64 = 0;
     let mut accepted: u64 = 0;
@@ -39,7 +41,13 @@ fn main() {
             let s: String = cur.iter().map(|&i| alphabet[i]).collect();
             cases += 1;
             let want = is_valid(&s);
-            let got = TopicFilter::from_str(&s);
+            let got = match std::panic::catch_unwind(|| TopicFilter::from_str(&s)) {
+                Ok(g) => g,
+                Err(_) => {
+                    println!("MISMATCH panic input={:?} the parser panicked", s);
+                    std::process::exit(1);
+                }
+            };
             if got.is_ok() != want {
                 println!("MISMATCH accept input={:?} parser_accepts={} section_4_7_validator_accepts={}", s, got.is_ok(), want);
                 std::process::exit(1);
